@@ -88,6 +88,27 @@ impl C09 {
         }) {
             return false;
         }
+        // ... also when read through the helper other contracts use (packages/cw4 Cw4Contract)
+        let via_total = g.via_helper(|c, q| c.total_weight(q));
+        if !h.check(via_total == Some(total), &format!("C09/group/{site}/package-helper-total-differs"), || format!("Cw4Contract::total_weight={via_total:?}, smart query={total}")) {
+            return false;
+        }
+        let via_list: Option<Vec<(String, u64)>> = g.via_helper(|c, q| {
+            let mut out = vec![];
+            let mut cur: Option<String> = None;
+            loop {
+                let page = c.list_members(q, cur.clone(), Some(4))?;
+                if page.is_empty() || out.len() > 500 {
+                    break;
+                }
+                cur = page.last().map(|m| m.addr.clone());
+                out.extend(page.into_iter().map(|m| (m.addr, m.weight)));
+            }
+            Ok(out)
+        });
+        if !h.check(via_list.as_ref() == Some(&listed), &format!("C09/group/{site}/package-helper-listing-differs"), || format!("Cw4Contract::list_members={via_list:?}, ListMembers={listed:?}")) {
+            return false;
+        }
         let heights = m.heights(now, &mut h.rng);
         let mut addrs: Vec<String> = pool().actors.clone();
         for a in m.members.keys() {
@@ -115,7 +136,17 @@ impl C09 {
             }) {
                 return false;
             }
+            let addr = cosmwasm_std::Addr::unchecked(a);
+            let via_now = g.via_helper(|c, q| c.is_member(q, &addr, None));
+            if !h.check(via_now == Some(cur), &format!("C09/group/{site}/package-helper-member-differs"), || format!("Cw4Contract::is_member({a})={via_now:?}, smart query={cur:?}")) {
+                return false;
+            }
             for &q in &heights {
+                let via_at = g.via_helper(|c, qq| c.is_member(qq, &addr, Some(q)));
+                let want_at = m.member_at(a, q);
+                if !h.check(via_at == Some(want_at), &format!("C09/group/{site}/package-helper-member-at-height-differs"), || format!("Cw4Contract::is_member({a}, {q})={via_at:?}, history says {want_at:?}")) {
+                    return false;
+                }
                 let got = match g.member(a, Some(q)) {
                     Res::Ok(w) => w,
                     other => {
